@@ -185,6 +185,7 @@ def check_obj(obj, label: str, problems: List[Dict[str, Any]], counters: Dict[st
     from pyrtma.exceptions import InvalidMessageDefinition
 
     want = bytes(obj)
+    twice = "=" not in label  # whole-object value profiles
     for cname, fn in roundtrips(obj):
         counters["roundtrips"] = counters.get("roundtrips", 0) + 1
         try:
@@ -196,6 +197,15 @@ def check_obj(obj, label: str, problems: List[Dict[str, Any]], counters: Dict[st
             problems.append({"kind": "roundtrip-differs", "codec": cname, "what": label, "first_diff": _first_diff(want, bytes(back))})
         if bytes(obj) != want:
             problems.append({"kind": "codec-mutated-source", "codec": cname, "what": label})
+        if twice and len(want):
+            # the decoded object is overwritten by its owner, then the same representation is decoded once more
+            _scramble(back)
+            try:
+                again = fn()
+                if bytes(again) != want or bytes(obj) != want:
+                    problems.append({"kind": "second-decode-differs", "codec": cname, "what": label, "first_diff": _first_diff(want, bytes(again))})
+            except Exception as e:
+                problems.append({"kind": "codec-raised", "codec": cname + " (second decode)", "what": label, "exc": f"{type(e).__name__}: {str(e)[:120]}"})
     # a copy shares no storage
     cp = type(obj).copy(obj)
     n = len(want)
@@ -248,7 +258,18 @@ def check_obj(obj, label: str, problems: List[Dict[str, Any]], counters: Dict[st
               for minify in (False, True):
                   counters["message_roundtrips"] = counters.get("message_roundtrips", 0) + 1
                   try:
-                      m2 = Message.from_json(m.to_json(minify=minify))
+                      text = m.to_json(minify=minify)
+                      m2 = Message.from_json(text)
+                      if ok and twice and hprof in ("plain", "timecode"):
+                          # the receiver works on what it decoded (a relay stamps the header, a handler edits the data); the
+                          # same text decoded again is the original again
+                          first = (bytes(m2.header), bytes(m2.data))
+                          _scramble(m2.header)
+                          _scramble(m2.data)
+                          m3 = Message.from_json(text)
+                          if (bytes(m3.header), bytes(m3.data)) != first:
+                              problems.append({"kind": "second-decode-differs", "codec": "Message.from_json", "what": label, "minify": minify, "header": hprof})
+                          m2 = m3
                       if not ok:
                           problems.append({"kind": "foreign-version-accepted", "what": label, "version": hex(ver)})
                           continue
@@ -265,6 +286,13 @@ def check_obj(obj, label: str, problems: List[Dict[str, Any]], counters: Dict[st
                       problems.append({"kind": "message-copy-differs", "what": label, "header": hprof})
               except Exception as e:
                   problems.append({"kind": "message-copy-raised", "what": label, "exc": f"{type(e).__name__}: {str(e)[:100]}"})
+
+
+def _scramble(o):
+    if ctypes.sizeof(o):
+        mv = memoryview(o).cast("B")
+        for i in range(len(mv)):
+            mv[i] ^= 0xFF
 
 
 def _first_diff(a: bytes, b: bytes):
